@@ -32,10 +32,21 @@
 #include <unistd.h>
 #include "val.h"
 
-/* ---- pinned clock / pid (C11): every caller in this process, libarchive.a included ---- */
+#ifdef VERIF_VALGRIND
+#include <valgrind/memcheck.h>
+#endif
+
+/* ---- pinned clock / pid / random source (C11): every caller in this process, libarchive.a included ---- */
 #define PINNED_TIME 1000000000
 time_t time(time_t *t) { if (t) *t = PINNED_TIME; return PINNED_TIME; }
 pid_t getpid(void) { return 4242; }
+/* archive_random() calls arc4random_buf on this platform (HAVE_ARC4RANDOM_BUF) */
+void arc4random_buf(void *buf, size_t n)
+{
+	static unsigned char ctr;
+	unsigned char *p = buf;
+	while (n-- > 0) *p++ = (unsigned char)(0x5a + 7 * ctr++);
+}
 
 /* ---- stack poisoning trampoline ---- */
 static int g_poison = -1;
@@ -56,6 +67,18 @@ static la_ssize_t sink_write(struct archive *a, void *cd, const void *buf, size_
 	struct sink *s = cd;
 	(void)a;
 	if (s->dead) return -1;	/* the client gave the archive up: refuse further output */
+	{
+		/* touch every byte handed to the write callback: under memcheck a byte derived from
+		 * uninitialised memory makes the branch (and the explicit check) report an error */
+		const unsigned char *q = buf;
+		static volatile unsigned long touched;
+		size_t k;
+#ifdef VERIF_VALGRIND
+		(void)VALGRIND_CHECK_MEM_IS_DEFINED(buf, len);
+#endif
+		for (k = 0; k < len; k++)
+			if (q[k] & 1) touched++;
+	}
 	if (s->n + len > s->cap) {
 		size_t nc = s->cap ? s->cap : 65536;
 		while (nc < s->n + len) nc *= 2;
